@@ -487,6 +487,25 @@ def cagrad(index, ctx, A, by_class):
             ctx.require(len(step) == 1 and "c" in r.value.origin, "R4", "CAGrad: weights = 1/m + (c·‖g0‖/‖g_w‖)·w", "uniform 1/m plus a multiple of w carrying c",
                         f"non-stationary branch does not add a c-dependent multiple of the optimiser's w to the uniform 1/m weights (additions: {[e['text'] for e in adds][:3]})",
                         step[0]["loc"] if step else cls.loc())
+    # the stationarity threshold guards the division: what is compared with norm_eps is what the step is divided by
+    from .C19 import _single_defs, norm_power
+
+    hosts = list(W_CAGRAD.methods.values()) + [f for f in W_CAGRAD.module.functions.values()]
+    for H in hosts:
+        defs = _single_defs(H.node)
+        for t in [n for n in ast.walk(H.node) if isinstance(n, ast.If) and isinstance(n.test, ast.Compare) and len(n.test.ops) == 1 and "norm_eps" in norm_text(n.test)]:
+            l_, r_ = t.test.left, t.test.comparators[0]
+            x = r_ if "norm_eps" in norm_text(l_) else l_
+            px = norm_power(x, defs)
+            divs = [d for b_ in t.body + t.orelse for d in ast.walk(b_) if isinstance(d, ast.BinOp) and isinstance(d.op, ast.Div)]
+            pds = [norm_power(d.right, defs) for d in divs]
+            pds = [p_ for p_ in pds if p_ is not None]
+            if px is None or not pds:
+                continue
+            same = all(p_[0] == px[0] and abs(p_[1] - px[1]) < 1e-9 for p_ in pds)
+            ctx.require(same, "R4", "CAGrad: the stationarity threshold is on the norm the step is divided by", f"`{norm_text(t.test)}` compares ||{px[0]}||^{px[1]:g}, the divisor",
+                        f"`{norm_text(t.test)}` compares ||{px[0]}||^{px[1]:g} with norm_eps while the step is divided by ||{pds[0][0]}||^{pds[0][1]:g}: the branch that returns the zero vector "
+                        "is taken for vectors whose norm is far above norm_eps (or not taken for some below it), so the result is not at distance c·|g0| from the mean there", H.loc(t))
     untyped = [r for run in by_class["CAGrad"] for r in weighting_results(A, run)[1] if r.kind == "return" and (not isinstance(r.value, TV) or _agg.blocking_unknowns(r))]
     if untyped and not (seen_step and seen_zero):
         u0 = _agg.blocking_unknowns(untyped[0])
